@@ -35,6 +35,36 @@ def _feed(h, obj, ids, depth=0):
         h.update(repr(obj).encode())
 
 
+def _feed_plain(h, obj, depth=0):
+    if depth > 6:
+        return
+    if isinstance(obj, np.ndarray):
+        if obj.dtype != object:
+            h.update(str(obj.dtype).encode())
+            h.update(str(obj.shape).encode())
+            h.update(np.ascontiguousarray(obj).tobytes())
+    elif isinstance(obj, (list, tuple)):
+        h.update(type(obj).__name__.encode())
+        h.update(str(len(obj)).encode())
+        for it in obj:
+            _feed_plain(h, it, depth + 1)
+    elif isinstance(obj, dict):
+        for k in sorted(obj, key=repr):
+            h.update(repr(k).encode())
+            _feed_plain(h, obj[k], depth + 1)
+    elif isinstance(obj, (bool, int, float, complex, str, bytes, type(None), np.generic)):
+        h.update(repr(obj).encode())
+    else:
+        h.update(type(obj).__name__.encode())  # other objects (solver variables, games ...) are not looked into here
+
+
+def plain_digest(obj):
+    """Digest of the plain data in an argument: numeric arrays, numbers, strings and lists / tuples / dicts of those."""
+    h = hashlib.sha1()
+    _feed_plain(h, obj)
+    return h.hexdigest()
+
+
 def digest(obj, ids=False):
     """SHA-1 over dtype/shape/bytes, recursively; with ids=True also the identity of list elements (notices replacement)."""
     h = hashlib.sha1()
